@@ -648,6 +648,26 @@ def direction_cff(ck, fut):
     if rep["unexplained"]:
         ck.note("extended coverage (CFF, outside C06's statement): %d generated structures where the real reader matches neither the "
                 "reference nor the modelled deviations, e.g. %s" % (rep["unexplained"], rep["examples"][0]))
+    # through a font dictionary: a Type1C program whose built-in encoding gives code 65 the glyph "B" (SID 35), no /Encoding
+    try:
+        from ..realise import fontpdf as fp
+        from ..realise.pdfwriter import Name, Ref, Stream
+        blob = cff.build(2, b"\0" + (35).to_bytes(2, "big"), bytes([0, 1, 65]))
+        if cff.parse(blob)["encoding"] != {65: 1} or cff.parse(blob)["charset"] != [35] or standard[35] != "B":
+            raise MachineryError("CFF probe blob is not what it should be")
+        d = {"Type": Name("Font"), "Subtype": Name("Type1"), "BaseFont": Name("VERIFC+Cff"), "FirstChar": 65, "LastChar": 65,
+             "Widths": [500], "FontDescriptor": {"Type": Name("FontDescriptor"), "FontName": Name("VERIFC+Cff"), "Flags": 4,
+                                                 "FontBBox": [0, -200, 1000, 800], "FontFile3": Ref(100)}}
+        pdf = fp.doc_with_font(d, [fp.show_codes([65])], extra_objects={100: Stream({"Subtype": Name("Type1C")}, blob)})
+        got = fp.chars_of(pdf)[0][0][0]
+        rep["type1c_font_dictionary_probe"] = {"built_in_encoding_says": "B", "reported": got}
+        if got != "B":
+            ck.note("extended coverage (CFF): a Type1C font without /Encoding whose program encodes code 65 as glyph /B reports %r - "
+                    "the built-in encoding of a FontFile3 program is never consulted (only FontFile is)" % got)
+    except MachineryError:
+        raise
+    except Exception as e:  # noqa: BLE001
+        rep["type1c_font_dictionary_probe"] = {"exception": repr(e)[:200]}
     # the Type1C programs of the repository samples: pdfminer's CFFFont against the reader written from TN 5176
     from ..observe import ttrec
     import io
